@@ -76,7 +76,17 @@ func (s *Schema) Example() ([]byte, error) {
 	return s.generateExample()
 }
 
-func (s *Schema) generateExample() ([]byte, error) {
+func (s *Schema) generateExample() (b []byte, err error) {
+	defer func() {
+		// The generator panics on patterns it cannot make a sample for (for
+		// instance a class with nothing printable in it).
+		if r := recover(); r != nil {
+			e := errors.NewDocumentError(s.file, errors.Format(errors.ErrRegexInvalid, s.file.Content()))
+			e.SetIndex(bytes.Index(0))
+			b, err = nil, e
+		}
+	}()
+
 	g, err := s.generatorOnce.Do(func() (*reggen.Generator, error) {
 		g, err := reggen.NewGenerator(s.pattern)
 		if err != nil {
